@@ -5,11 +5,15 @@
    Every theorem is for every value type V, function symbols F, meaning interp, every well-formed graph g
    (any topological order of a DAG of Value / cached / transient nodes), every initial input values ext0
    and every finite history xs of
-     Assign, SetAuto, Update [] (full), Update ts (targeted), Save, Restore, XRestoreEdited. *)
+     Assign, SetAuto, Update [] (full), Update ts (targeted), Save, Restore, XRestoreEdited.
+   The theorems named ..._raising are about Graph/GraphF.v ([fstep], [finit]): the same operations when node
+   functions may RAISE (interp gives an error value, isErr) - the sweep stops at the first raising node, the
+   exception leaves the assigned value in place, and the history goes on. *)
 From Coq Require Import List Bool Arith.
 Import ListNotations.
 From LV Require Import Graph.Graph Graph.GraphProofs Graph.GraphMemo Graph.GraphExamples
-  Graph.GraphX Graph.GraphXProofs Graph.GraphXExamples Graph.CorrC01X.
+  Graph.GraphX Graph.GraphXProofs Graph.GraphXExamples Graph.CorrC01X
+  Graph.GraphF Graph.GraphFProofs Graph.GraphFExamples Graph.CorrC01F.
 
 (* every node that reports itself up to date holds exactly the from-scratch value for the current
    values of the Value nodes *)
@@ -196,3 +200,125 @@ Example C01_example_edited_dirty_parent :
          = [false; false; false; false; false; false; true]).
 Proof. exact ex_edited. Qed.
 Print Assumptions C01_example_edited_dirty_parent.
+
+(* ---- node functions that raise; histories that continue after the exception ---------------------------- *)
+
+(* Model.__init__ computes from scratch whatever values and flags the nodes carried before the build
+   (ext0 lists them for all nodes; only the entries of Value nodes enter [denote]): a build that does not
+   raise leaves no node outdated and every node shows its from-scratch value *)
+Theorem C01_build_from_scratch : forall (V F : Type) (interp : F -> list V -> V) (dflt : V) (isErr : V -> bool)
+  (g : graph F), wf g -> forall (ext0 : list V) (rs0 : rstate V),
+  finit interp dflt isErr g ext0 = Some rs0 ->
+  RInv V F interp dflt g rs0
+  /\ (forall k, k < length g -> outdated g (cur rs0) k = false)
+  /\ (forall k, k < length g -> value interp dflt g (cur rs0) k = denote interp dflt g ext0 k)
+  /\ (forall k n, nth_error g k = Some n -> kd n = KValue -> getv dflt (vals (cur rs0)) k = getv dflt ext0 k)
+  /\ auto (cur rs0) = true /\ snaps rs0 = [].
+Proof. exact finit_spec. Qed.
+Print Assumptions C01_build_from_scratch.
+
+(* in every state reachable with raising evaluations - also the state an exception leaves behind - a node
+   that reports itself up to date holds the from-scratch value of the CURRENT inputs *)
+Theorem C01_coherent_raising : forall (V F : Type) (interp : F -> list V -> V) (dflt : V) (isErr : V -> bool)
+  (g : graph F), wf g -> forall (ext0 : list V) (rs0 : rstate V) (xs : list (xop V)),
+  finit interp dflt isErr g ext0 = Some rs0 ->
+  let s := cur (frun interp dflt isErr g xs rs0) in
+  forall k, k < length g -> outdated g s k = false ->
+  value interp dflt g s k = denote interp dflt g (vals s) k.
+Proof. exact coherent_F. Qed.
+Print Assumptions C01_coherent_raising.
+
+(* an assignment, raising or not: the assigned value stays, no other input changes, every node that was not
+   evaluated is exactly as the flagging left it (the raising node and everything after it included); without
+   an exception and with auto-update on, no node is outdated *)
+Theorem C01_assign_raising : forall (V F : Type) (interp : F -> list V -> V) (dflt : V) (isErr : V -> bool)
+  (g : graph F), wf g -> forall (ext0 : list V) (rs0 : rstate V) (xs : list (xop V)) i v n,
+  finit interp dflt isErr g ext0 = Some rs0 ->
+  let rs := frun interp dflt isErr g xs rs0 in
+  nth_error g i = Some n -> kd n = KValue ->
+  let out := fstep interp dflt isErr g rs (XBase (Assign i v)) in
+  let s1 := assign_flag (lit interp dflt) g (cur rs) i v in
+  let s' := cur (st' out) in
+  getv dflt (vals s') i = v
+  /\ (forall k m, k <> i -> nth_error g k = Some m -> kd m = KValue ->
+        getv dflt (vals s') k = getv dflt (vals (cur rs)) k)
+  /\ (forall k, ~ In k (evald out) -> same_at V dflt s' s1 k)
+  /\ (auto (cur rs) = false -> err out = false /\ evald out = [])
+  /\ (auto (cur rs) = true -> err out = false -> forall k, k < length g -> outdated g s' k = false)
+  /\ RInv V F interp dflt g (st' out).
+Proof. exact assign_F_reach. Qed.
+Print Assumptions C01_assign_raising.
+
+(* an update (ts = [] full, otherwise targeted), raising or not: inputs and everything that was not evaluated
+   stay; what was evaluated lies in the ancestor closure of the targets; without an exception the targets
+   and all their ancestors (full: all nodes) are up to date and hold the from-scratch values *)
+Theorem C01_update_raising : forall (V F : Type) (interp : F -> list V -> V) (dflt : V) (isErr : V -> bool)
+  (g : graph F), wf g -> forall (ext0 : list V) (rs0 : rstate V) (xs : list (xop V)) ts,
+  finit interp dflt isErr g ext0 = Some rs0 ->
+  let rs := frun interp dflt isErr g xs rs0 in
+  forallb (fun t => t <? length g) ts = true ->
+  let out := fstep interp dflt isErr g rs (XBase (Update ts)) in
+  let s := cur rs in
+  let s' := cur (st' out) in
+  (forall k, ~ In k (evald out) -> same_at V dflt s' s k)
+  /\ (forall k n, nth_error g k = Some n -> kd n = KValue -> getv dflt (vals s') k = getv dflt (vals s) k)
+  /\ (ts <> [] -> forall k, In k (evald out) -> exists t, In t ts /\ path F g k t)
+  /\ (err out = false -> forall k, k < length g -> (ts = [] \/ exists t, In t ts /\ path F g k t) ->
+        outdated g s' k = false /\ value interp dflt g s' k = denote interp dflt g (vals s') k)
+  /\ RInv V F interp dflt g (st' out).
+Proof. exact update_F_reach. Qed.
+Print Assumptions C01_update_raising.
+
+(* any operation, raising or not, evaluates a cached node at most once and only if it was outdated and
+   ghost-marked when the sweep started *)
+Theorem C01_evaluate_once_raising : forall (V F : Type) (interp : F -> list V -> V) (dflt : V) (isErr : V -> bool)
+  (g : graph F), wf g -> forall (ext0 : list V) (rs0 : rstate V) (xs : list (xop V)) x,
+  finit interp dflt isErr g ext0 = Some rs0 ->
+  let rs := frun interp dflt isErr g xs rs0 in
+  let out := fstep interp dflt isErr g rs x in
+  let s0 := xpre_sweep V F interp dflt g rs x in
+  NoDup (evald out)
+  /\ (forall k, In k (evald out) ->
+        cached F g k /\ outdated g s0 k = true /\ getb (touched s0) k = true
+        /\ getb (touched (cur (st' out))) k = false /\ outdated g (cur (st' out)) k = false).
+Proof. exact fstep_trace_reach. Qed.
+Print Assumptions C01_evaluate_once_raising.
+
+(* if no evaluation gives an error value the stopping sweep is the sweep of Graph.v *)
+Theorem C01_no_raise_is_plain : forall (V F : Type) (interp : F -> list V -> V) (dflt : V) (isErr : V -> bool)
+  (g : graph F) tgt s,
+  (forall f args, isErr (interp f args) = false) ->
+  sweepF_lit interp dflt isErr g tgt s = (sweep_lit interp dflt g tgt s, false).
+Proof. exact sweepF_no_error. Qed.
+Print Assumptions C01_no_raise_is_plain.
+
+(* the table-driven instance the shards execute is the literal model, raising evaluations included *)
+Theorem C01_memo_is_lit_raising : forall (V F : Type) (interp : F -> list V -> V) (dflt : V) (isErr : V -> bool)
+  (g : graph F), wf g -> forall (ext0 : list V) (rs0 : rstate V) (xs : list (xop V)),
+  finit interp dflt isErr g ext0 = Some rs0 ->
+  mfinit interp dflt isErr g ext0 = Some rs0
+  /\ mfrun interp dflt isErr g xs rs0 = frun interp dflt isErr g xs rs0
+  /\ forall x, mfstep interp dflt isErr g (frun interp dflt isErr g xs rs0) x
+               = fstep interp dflt isErr g (frun interp dflt isErr g xs rs0) x.
+Proof. exact memo_F. Qed.
+Print Assumptions C01_memo_is_lit_raising.
+
+(* raising in mid-sweep and going on: x := 6 makes B raise after A was evaluated; x stays 6, A is clean and
+   from scratch, B and D stay outdated; update(C) works, update(D) raises again, x := 5 repairs everything *)
+Example C01_example_raising :
+  finit exiF 0 exErr exg ex_ext0 = Some ex_frs0 /\
+  let o1 := fstep exiF 0 exErr exg ex_frs0 (XBase (Assign 0 6)) in
+  err o1 = true /\ evald o1 = [2]
+  /\ values_all exiF 0 exg (cur (st' o1)) = [6; 2; 9; 47; 41; 14; 182]
+  /\ flags_all exg (cur (st' o1)) = [false; false; false; false; true; false; true]
+  /\ coherent nat nat exiF 0 exg (cur (st' o1))
+  /\ (let o2 := fstep exiF 0 exErr exg (st' o1) (XBase (Update [5])) in
+      err o2 = false /\ evald o2 = []
+      /\ (let o3 := fstep exiF 0 exErr exg (st' o2) (XBase (Update [6])) in
+          err o3 = true /\ evald o3 = []
+          /\ (let o4 := fstep exiF 0 exErr exg (st' o3) (XBase (Assign 0 5)) in
+              err o4 = false /\ evald o4 = [2; 4; 6]
+              /\ values_all exiF 0 exg (cur (st' o4)) = [5; 2; 8; 44; 53; 14; 218]
+              /\ flags_all exg (cur (st' o4)) = [false; false; false; false; false; false; false]))).
+Proof. exact ex_raising_full. Qed.
+Print Assumptions C01_example_raising.
